@@ -41,6 +41,8 @@ type Bounds struct {
 	MaxSteps   int64            `json:"max_steps"`
 	Ticks      int              `json:"ticker_budget"`
 	Concretize int              `json:"max_concretize"`
+	MaxWallS   int              `json:"max_wall_s"`
+	Encoding   string           `json:"encoding"` // "bv" (default) or "int"
 }
 
 type PropSpec struct {
@@ -79,6 +81,7 @@ var (
 	flagNoNative = flag.Bool("nonative", false, "skip native replay validation")
 	flagSolver   = flag.String("solver", "z3", "z3|z3-new|cvc5")
 	flagOut      = flag.String("cexdir", "/verif/cex", "counterexample directory")
+	flagEnc      = flag.String("enc", "", "(dev) bv|int")
 )
 
 func die(code int, format string, args ...any) {
@@ -123,7 +126,7 @@ func main() {
 			}
 		}
 	} else if *flagGroup != "" && *flagEntry != "" {
-		b := &Bounds{Params: map[string]int64{}, Sched: *flagSched, Preempt: *flagPreempt, MaxPaths: *flagMaxPaths}
+		b := &Bounds{Params: map[string]int64{}, Sched: *flagSched, Preempt: *flagPreempt, MaxPaths: *flagMaxPaths, Encoding: *flagEnc}
 		for _, kv := range strings.Split(*flagParams, ",") {
 			if k, v, ok := strings.Cut(kv, "="); ok {
 				n, _ := strconv.ParseInt(v, 10, 64)
@@ -302,6 +305,8 @@ func cfgOf(b *Bounds) interp.RunConfig {
 		MaxSteps:      b.MaxSteps,
 		TickerBudget:  b.Ticks,
 		MaxConcretize: b.Concretize,
+		MaxWallS:      b.MaxWallS,
+		IntEncoding:   b.Encoding == "int",
 		Params:        b.Params,
 		Solver:        *flagSolver,
 	}
